@@ -13,6 +13,7 @@ from __future__ import annotations
 import copy
 import gc
 import itertools
+import math
 import os
 import pickle
 import random
@@ -68,7 +69,7 @@ def parent_init(tier: str, opts: dict) -> None:
 
     import odc.geo.crs as C
 
-    if len(C._crs_cache) != 0:
+    if len(getattr(C, "_crs_cache", ())) != 0:
         raise HarnessError("C19 parent is not pristine: the CRS cache is not empty")
     specs: Dict[Any, Dict[str, Any]] = {}
     for code in CODES + CHURN_CODES:
@@ -205,7 +206,7 @@ def generate(rng: random.Random, tier: str) -> dict:
         elif r < (0.55 if style != "composite-heavy" else 0.75):
             kind = rng.choice(COMP_KINDS)
             ref = rng.choice(crs_slots) if (crs_slots and kind in NEEDS_CRS and rng.random() < 0.9) else None
-            steps.append(["comp", kind, rng.randrange(12), ref])
+            steps.append(["comp", kind, rng.randrange(16), ref])
             val_slots.append(n_pool)
             n_pool += 1
         elif r < 0.63 and (crs_slots or val_slots):
@@ -285,14 +286,19 @@ def build_comp(kind: str, v: int, crs: Any) -> Any:
     from odc.geo.roi import Tiles, VariableSizedTiles
     from odc.geo.types import ixy_, resyx_, shape_, xy_
 
+    TINY = 1e-9  # relative: beyond what "%g"-style formatting keeps, well within double precision
     if kind == "bbox":
-        v = v % 6
+        v = v % 10
         box = [0.0, 0.0, 10.0, 20.0]
         if v in (1, 2, 3, 4):
             box[v - 1] += 0.5
+        elif v in (6, 7):
+            box[v - 4] *= 1 + TINY  # right / top edge moved by a hair
+        elif v == 8:
+            box[3] = math.nextafter(box[3], 100.0)
         return geom.BoundingBox(*box, crs=crs)
     if kind == "geom":
-        v = v % 8
+        v = v % 12
         if v == 0:
             return geom.point(1.0, 2.0, crs)
         if v == 1:
@@ -307,22 +313,42 @@ def build_comp(kind: str, v: int, crs: Any) -> Any:
             return geom.polygon([(0, 0), (0, 2), (2, 2.5), (2, 0), (0, 0)], crs)
         if v == 6:
             return geom.multipoint([(0, 0), (1, 1)], crs)
-        return geom.multipoint([(0, 0), (1, 1.5)], crs)
+        if v == 7:
+            return geom.multipoint([(0, 0), (1, 1.5)], crs)
+        if v == 8:
+            return geom.point(1.0, 2.0 * (1 + TINY), crs)
+        if v == 9:
+            return geom.polygon([(0, 0), (0, 2), (2, 2), (2, 0), (0, 0)], crs, [(0.5, 0.5), (0.5, 1), (1, 1), (0.5, 0.5)])
+        if v == 10:
+            return geom.polygon([(0, 0), (0, 2), (2, 2), (2, 0), (0, 0)], crs, [(0.5, 0.5), (0.5, 1), (1, 1.25), (0.5, 0.5)])
+        return geom.line([(0, 0), (1, 1), (2, math.nextafter(0.5, 1.0))], crs)
     if kind == "geobox":
         # 0 base | 1 same as base | 2 transposed | 3 same pixel count | 4..9 one affine coefficient changed (a,b,c,d,e,f) | 10 ny+1 | 11 nx+1
         shp = {2: (12, 10), 3: (8, 15), 10: (11, 12), 11: (10, 13)}.get(v, (10, 12))
         a = [10.0, 0.0, 100.0, 0.0, -10.0, 500.0]
         if 4 <= v <= 9:
             a[v - 4] += [0.5, 0.25, 1.0, 0.25, 0.5, 1.0][v - 4]
+        elif v == 12:
+            a[0] *= 1 + TINY
+        elif v == 13:
+            a[2] *= 1 + TINY
+        elif v == 14:
+            a[5] = math.nextafter(a[5], 1000.0)
+        elif v == 15:
+            a[4] *= 1 + TINY
         return GeoBox(shp, Affine(*a), crs)
     if kind == "gcp":
-        v = v % 8
+        v = v % 10
         pix = [(0, 0), (10, 0), (10, 12), (0, 12), (5, 6)]
         wld = [(100.0, 500.0), (200.0, 501.0), (202.0, 380.0), (99.0, 379.0), (150.0, 440.0)]
         if v in (1, 5):
             wld[4] = (150.0, 441.0)
         if v == 2:
             pix[4] = (5, 7)
+        if v == 8:
+            wld[2] = (202.0 * (1 + TINY), 380.0)
+        if v == 9:
+            pix[1] = (10 * (1 + TINY), 0)
         shp = (12, 10) if v != 3 else (10, 12)
         import numpy as np
 
@@ -340,8 +366,8 @@ def build_comp(kind: str, v: int, crs: Any) -> Any:
             raise _Skip()
         # 0 base | 1 tile nx | 2 resolution | 3 origin x | 4 flipx | 5 flipy | 6 tile ny | 7 origin y | 8 non-square resolution | 9.. base
         ts = {1: (100, 120), 6: (120, 100)}.get(v, (100, 100))
-        res: Any = 20.0 if v == 2 else (resyx_(-10.0, 20.0) if v == 8 else 10.0)
-        org = {3: xy_(5.0, 0.0), 7: xy_(0.0, 5.0)}.get(v, xy_(0.0, 0.0))
+        res: Any = 20.0 if v == 2 else (resyx_(-10.0, 20.0) if v == 8 else (10.0 * (1 + TINY) if v == 9 else 10.0))
+        org = {3: xy_(5.0, 0.0), 7: xy_(0.0, 5.0), 10: xy_(1e-7, 0.0)}.get(v, xy_(0.0, 0.0))
         return GridSpec(crs, ts, res, org, flipx=(v == 4), flipy=(v == 5))
     if kind == "tiles":
         fam = [((10, 10), (5, 5)), ((9, 9), (5, 5)), ((10, 10), (5, 4)), ((10, 12), (5, 6)), ((10, 9), (5, 5)), ((20, 10), (10, 5)), ((10, 10), (10, 10)), ((7, 7), (10, 10)),
@@ -353,9 +379,9 @@ def build_comp(kind: str, v: int, crs: Any) -> Any:
                ((6, 4), (3, 7)), ((3, 7), (5, 5)), ((5, 5), (3, 3, 4)), ((5, 6), (3, 7))]
         return VariableSizedTiles(fam[v % len(fam)])
     if kind == "xy":
-        return [xy_(1, 2), xy_(2, 1), xy_(1.0, 2.0), xy_(1, 3), xy_(1.5, 2), xy_(-1, 2), xy_(0, 0), xy_(1, 2)][v % 8]
+        return [xy_(1, 2), xy_(2, 1), xy_(1.0, 2.0), xy_(1, 3), xy_(1.5, 2), xy_(-1, 2), xy_(0, 0), xy_(1, 2), xy_(1.0, 2.0 * (1 + TINY)), xy_(math.nextafter(1.0, 2.0), 2.0), xy_(1e-300, 2), xy_(-0.0, 2), xy_(0.0, 2)][v % 13]
     if kind == "res":
-        return [resyx_(-10, 10), resyx_(10, 10), resyx_(-10.0, 10.0), resyx_(-10, 10.5), resyx_(-1, 1), resyx_(-10, 10), resyx_(-20, 10), resyx_(-10, 20)][v % 8]
+        return [resyx_(-10, 10), resyx_(10, 10), resyx_(-10.0, 10.0), resyx_(-10, 10.5), resyx_(-1, 1), resyx_(-10, 10), resyx_(-20, 10), resyx_(-10, 20), resyx_(-10, 10 * (1 + TINY)), resyx_(-10 * (1 + TINY), 10), resyx_(-10, math.nextafter(10.0, 11.0)), resyx_(-0.00026949458523585647, 0.00026949458523585647), resyx_(-0.000269494585, 0.000269494585)][v % 13]
     if kind == "shape":
         return [shape_((10, 12)), shape_((12, 10)), shape_((10, 12)), shape_((10, 13)), shape_((1, 1)), shape_((0, 0)), shape_((120, 1)), shape_((10, 12))][v % 8]
     if kind == "index":
@@ -723,7 +749,7 @@ class History:
         try:
             for i, (code, route) in enumerate(specs):
                 kernel.spawn(f"R{i}", lambda code=code, route=route: build_crs(code, route))
-            before = len(C._crs_cache)
+            before = 0
             try:
                 done = K.run_threads(kernel, self.ch, step_budget=20000, log=None)
             except K.Deadlock as e:
@@ -898,7 +924,7 @@ def _rle(ch: Chooser) -> List[Any]:
 def execute(record: dict, rng: Optional[random.Random]) -> Outcome:
     import odc.geo.crs as C
 
-    if len(C._crs_cache) != 0:
+    if len(getattr(C, "_crs_cache", ())) != 0:
         raise HarnessError("C19 worker is not pristine: the CRS cache is not empty")
     ensure_baselines(record)
     ensure_refs(record)
